@@ -136,6 +136,18 @@ def run_sequence(ops, case):
             elif op[2] is None:
                 so = outcome(lambda: p.eval(src, max_ops_evaluated=op[3]), 'eval')
                 fo = fresh_call('eval-nonames', src, None, op[3])
+                # a fresh parser of the same process may share hidden module state: also compare with the reference
+                try:
+                    from sqv.spec import refsem
+                    rout, _ = refsem.run(neutral(p.parse(src)), {}, max_ops=op[3])
+                    if rout[0] == 'value' and (so[0] != 'value' or so[1] != canon(rout[1])):
+                        bad('history-dependent:eval-without-names', f'eval({src!r}) without a names mapping gave {so!r}; with no earlier call it gives {rout[1]!r}')
+                        break
+                    if rout[0] == 'lang' and so[0] == 'value':
+                        bad('history-dependent:eval-without-names', f'eval({src!r}) without a names mapping returned {so!r}; with no earlier call it fails')
+                        break
+                except Exception:  # noqa  (unparsable source: nothing to compare)
+                    pass
             else:
                 i, budget = op[2], op[3]
                 so = outcome(lambda: p.eval(src, sn[i], max_ops_evaluated=budget), 'eval')
